@@ -1,6 +1,7 @@
 import DV
 import DVP.Lemmas.RK
 import DVP.Lemmas.Controller
+import DVP.Properties.C15
 /-!
 # C02 — one step equals the Runge–Kutta update defined by the method's coefficients
 
@@ -69,6 +70,22 @@ theorem implicit_accept_only_converged (c08 h : ℚ) (att : Attempts ℚ) (retri
     (hres : call true true c08 h att retries = .ok newDt dT tr) :
     ∃ k, (att k dT).newtonOk = true ∧ (att k dT).redo = false ∧ newDt = (att k dT).ts :=
   call_accepts_converged c08 h att retries newDt dT tr hres
+
+/-- … and the Newton flag of an attempt is the consumer's test of `RungeKuttaIntegrator.step` on what `nonlinear_roots` returned:
+if the flag of each attempt is `consumerAccepts (front …) tol` (C15's model of the solver front end and its consumer), then the
+attempt handed back solved its stage equations with a RESIDUAL norm below the tolerance - whichever back end produced the stage
+values (MINPACK, the built-in dogleg for extended precision, or the trust-region fall-back; the dogleg path since fix P32). -/
+theorem implicit_step_handed_back_has_small_residual (c08 h : ℚ) (att : Attempts ℚ) (retries : Nat) (newDt dT : ℚ) (tr : List ℚ)
+    (tolEps tol : ℚ) (path : DV.Solvers.Path) (m : Nat → ℚ → DV.Solvers.Minpack ℚ) (hy : Nat → ℚ → DV.Solvers.Hybrj ℚ) (n : Nat → ℚ → DV.Solvers.Ntr ℚ)
+    (hflag : ∀ k hi, (att k hi).newtonOk = DV.Solvers.consumerAccepts (DV.Solvers.front tolEps path (m k hi) (hy k hi) (n k hi)) tol)
+    (hres : call true true c08 h att retries = .ok newDt dT tr) :
+    ∃ k, (m k dT).resNorm < tol ∨ (hy k dT).resNorm < tol ∨ (n k dT).resNorm < tol := by
+  obtain ⟨k, hk, _, _⟩ := call_accepts_converged c08 h att retries newDt dT tr hres
+  rw [hflag k dT] at hk
+  rcases DVP.C15.accept_implies_small_residual tolEps tol path (m k dT) (hy k dT) (n k dT) hk with h1 | h1 | h1
+  · exact ⟨k, Or.inl h1.2⟩
+  · exact ⟨k, Or.inr (Or.inl h1.2)⟩
+  · exact ⟨k, Or.inr (Or.inr h1.2)⟩
 
 /-- otherwise it raises, after exactly `1 + retries` attempts -/
 theorem raises_after_all_retries (ai implicit : Bool) (c08 h : ℚ) (att : Attempts ℚ) (retries : Nat) (tr : List ℚ)
